@@ -68,6 +68,8 @@ type c16case struct {
 	// every probe is also answered 1.5 x delay late, i.e. after its chunk's socket has been closed:
 	// nothing is expected to be reported for those, but the scan must go on (no crash, all chunks probed)
 	AfterClose bool `json:"answer_every_probe_after_its_chunk_ended"`
+	// after the last probe, replies keep arriving every delay/4: the scan must still end when the delay is over
+	KeepReplying bool `json:"replies_keep_arriving_after_the_last_probe"`
 }
 
 func scenC16(run *vlab.Run, sx, tmp string) {
@@ -112,6 +114,9 @@ func scenC16(run *vlab.Run, sx, tmp string) {
 		if c.Chunks > 1 && c.DelayMs <= 500 && i%2 == 1 {
 			c.AfterClose = true
 		}
+		if c.Chunks == 1 && i%4 == 3 {
+			c.KeepReplying, c.Late = true, false
+		}
 		cases = append(cases, c)
 	}
 	for i, c := range cases {
@@ -141,9 +146,15 @@ func scenC16(run *vlab.Run, sx, tmp string) {
 		var mu sync.Mutex
 		seen := make([]int, c.Chunks)
 		var lateRecs []string
+		var lastProbeSeen time.Time
+		stopReplies := make(chan struct{})
 		prng := rand.New(rand.NewSource(int64(i)))
 		args, stdin := wireArgs(tmp, &c.wireSpec)
-		spec := &CaseSpec{Args: args, Stdin: stdin, Setup: commonWorld("tap"), Sniff: []string{"tap0"}, Timeout: 120 * time.Second,
+		wd := 120 * time.Second
+		if c.KeepReplying {
+			wd = delay + 15*time.Second
+		}
+		spec := &CaseSpec{Args: args, Stdin: stdin, Setup: commonWorld("tap"), Sniff: []string{"tap0"}, Timeout: wd,
 			OnTx: func(cr *CaseRun, d *Dev, frame []byte) {
 				dec, a, port, ok := decodeProbe(c.Kind, frame, oracle.LinkEthernet)
 				if !ok {
@@ -158,6 +169,22 @@ func scenC16(run *vlab.Run, sx, tmp string) {
 					fr, _ := replyFor(c.Kind, oracle.LinkEthernet, dec, a, port, prng)
 					time.AfterFunc(delay*3/2+20*time.Millisecond, func() { cr.Inject(d, fr) })
 				}
+				if last && c.KeepReplying && ch == c.Chunks-1 {
+					mu.Lock()
+					lastProbeSeen = time.Now()
+					mu.Unlock()
+					go func() {
+						for k := 0; k < 400; k++ {
+							select {
+							case <-stopReplies:
+								return
+							case <-time.After(delay / 4):
+							}
+							fr, _ := replyFor(c.Kind, oracle.LinkEthernet, dec, a, port, prng)
+							cr.Inject(d, fr)
+						}
+					}()
+				}
 				if last && c.Late {
 					fr, rec := replyFor(c.Kind, oracle.LinkEthernet, dec, a, port, prng)
 					mu.Lock()
@@ -167,8 +194,26 @@ func scenC16(run *vlab.Run, sx, tmp string) {
 				}
 			}}
 		res := RunCase(sx, spec)
+		close(stopReplies)
 		run.Eval(1)
 		desc := map[string]interface{}{"case": c, "argv": strings.Join(args, " ")}
+		if c.KeepReplying && res.SetupErr == "" && res.crashText() == "" {
+			mu.Lock()
+			lp := lastProbeSeen
+			mu.Unlock()
+			if !lp.IsZero() {
+				over := res.ExitWall.Sub(lp) - delay
+				if res.TimedOut || over > 5*time.Second {
+					if res.Stall > 500*time.Millisecond {
+						run.Inconclusive(fmt.Sprintf("late exit but the monitor stalled %v", res.Stall))
+					} else {
+						run.Violation("no-exit-while-replies-arrive", fmt.Sprintf("replies kept arriving every %v after the last probe; sx was still running %v after the exit delay %v was over (watchdog fired: %v): %s", delay/4, over, delay, res.TimedOut, tailStr(strings.Join(args, " "), 200)), desc)
+					}
+					continue
+				}
+				run.Count("exits_despite_continuing_replies", 1)
+			}
+		}
 		if !baseChecks(run, res, desc, true) {
 			continue
 		}
